@@ -5,6 +5,7 @@ use crate::ast::{
 };
 use crate::scheme::error::CompileError;
 use crate::scheme::manager::SchemeManager;
+use crate::scheme::scheme_escape;
 use crate::{Mode, SFlag};
 
 #[cfg(target_arch = "wasm32")]
@@ -207,21 +208,21 @@ fn snippet(field: &FormatField) -> CResult<Option<String>> {
 
         FormatField::AccessFormatted(f) => match f {
             '@' => "atime".to_string(),
-            f => format!("strftime \"%{f}\" (localtime (atime))"),
+            f => format!("strftime \"%{}\" (localtime (atime))", scheme_escape(&f.to_string())),
         }
         .to_string(),
 
         FormatField::ChangeFormatted(f) => match f {
             '@' => "ctime".to_string(),
-            f => format!("strftime \"%{f}\" (localtime (ctime))"),
+            f => format!("strftime \"%{}\" (localtime (ctime))", scheme_escape(&f.to_string())),
         },
 
         FormatField::ModifyFormatted(f) => match f {
             '@' => "mtime".to_string(),
-            f => format!("strftime \"%{f}\" (localtime (mtime))"),
+            f => format!("strftime \"%{}\" (localtime (mtime))", scheme_escape(&f.to_string())),
         },
 
-        FormatField::XAttr(attr) => format!("or (xattr-ref-string \"{attr}\") \"\"").to_owned(),
+        FormatField::XAttr(attr) => format!("or (xattr-ref-string \"{}\") \"\"", scheme_escape(attr)).to_owned(),
 
         FormatField::Depth
         | FormatField::DeviceNumber
@@ -286,7 +287,7 @@ impl TargetScheme for Test {
             Test::Name(s) => buffer.push_str(&format!("(call-with-name {})", ctx.get_matcher(s, false))),
             Test::Path(s) => buffer.push_str(&format!("(call-with-relative-path {})", ctx.get_matcher(s, false))),
             Test::Perm(check) => compile_perm_check(buffer, check),
-            Test::Pool(pool_name) => buffer.push_str(&format!("(member \"{pool_name}\" (lov-pools))")),
+            Test::Pool(pool_name) => buffer.push_str(&format!("(member \"{}\" (lov-pools))", scheme_escape(pool_name))),
             Test::Readable => buffer.push_str("(readable)"),
             Test::Size(cmp) => compile_size_comp(buffer, &cmp),
             Test::StripeCount(cmp) => buffer.push_str(&format_cmp!(cmp, "lov-stripe-count")),
@@ -294,10 +295,12 @@ impl TargetScheme for Test {
             Test::Type(list) => compile_type_list_comp(buffer, list),
             Test::UserId(cmp) => buffer.push_str(&format_cmp!(cmp, "uid")),
             Test::Writable => buffer.push_str("(writable)"),
-            Test::Xattr(field) => buffer.push_str(&format!("(xattr? \"{field}\")")),
+            Test::Xattr(field) => buffer.push_str(&format!("(xattr? \"{}\")", scheme_escape(field))),
             Test::XattrMatch(field, value) => {
                 let offending = |c:char| {"*?['".contains(c)};
-                if !(field.contains(offending) || value.contains(offending)) {
+                let pattern = field.contains(offending) || value.contains(offending);
+                let (field, value) = (scheme_escape(field), scheme_escape(value));
+                if !pattern {
                     buffer.push_str(&format!("(equal? (xattr-ref-string \"{field}\") \"{value}\")"));
                 } else {
                     buffer.push_str(&format!("(xattr-match? \"{field}\" \"{value}\")"));
